@@ -14,6 +14,7 @@ RULE = ('per-field exhaustive sweeps (every value of one field, the other fields
         'inconsistent calls.  Oracle: Python big-int shifts of the documented layout.  '
         'Non-trivial = at least one field in the upper half of its range (sweeps: chunk contains such '
         'values); distinct = distinct case hash.')
+RULE += '  Also: per-field dtypes mixed (u8/i8/i4/u4/big-endian), 2-D and bytes id arrays for unwrap_objid.'
 ASSUMPTIONS = ['objID arrays are int64 as the docstring requires; specObjID field arrays are int64 and also int32/uint32/uint64 (FITS columns are 32-bit; every field value fits); unwrap gets uint64 or strings',
                'run2d strings are exactly vN_M_P with 5<=N<=6, 0<=M,P<=99 (documented form)',
                'scalar convention = every argument a Python int; array convention = every argument an array']
